@@ -21,7 +21,7 @@ EXPLANATION = (
     "the two margins is a sum-preserving pair (+shift / -shift) or the final non-clip clamp; (4) GridFlow: the space budget of the row-wrap test exceeds the row's drawn width by exactly "
     "one separator, i.e. a cell is added to a row only if separator + cell still fit."
     ' Added after seed round 3: (5) AXIS - placement options reach parameters of their own axis (align/width/left/right vs valign/height/top/bottom) and no argument carries the name of a different parameter; (6) ACCUM - Columns.column_widths charges / refunds its budget for every column it passes.'
-    ' Round 4: (7) the space a relative size is a percentage of is clamped to >= 0 before scaling, in both placement helpers; (8) memo vs child queries (C06.7).'
+    ' Round 4: (7) the space a relative size is a percentage of is clamped to >= 0 before scaling, in both placement helpers; (8) memo vs child queries (C06.7); (9) Overlay measures a flow top widget at the width top_w_size() renders it with (roles matched through the caller).'
 )
 NOT_DECIDED = "Non-negativity of every child dimension, proportionality within one column, focus-column visibility, min-width interaction beyond the ordering clause, alignment rounding - integer-rounding properties over ranges."
 ASSUMPTIONS = []
@@ -257,6 +257,61 @@ def rule_relative_space_clamp(ctx: Ctx) -> RuleResult:
     return rr
 
 
+def rule_overlay_measure(ctx: Ctx) -> RuleResult:
+    """Overlay asks a flow top widget for its rows in calculate_padding_filler() and renders it with the size
+    top_w_size() builds from that function's results.  The two widths must be the same quantity: the roles are
+    matched through the caller (render passes element j of calculate_padding_filler()'s result as parameter i of
+    top_w_size()), not through local names."""
+    p = ctx.p
+    rr = RuleResult("SIB", "C19.9", "Overlay measures a flow top widget (rows) at the width top_w_size() renders it with", floor=1)
+    cpf = p.func("urwid.widget.overlay.Overlay.calculate_padding_filler")
+    tws = p.func("urwid.widget.overlay.Overlay.top_w_size")
+    ren = p.func("urwid.widget.overlay.Overlay.render")
+    # 1. the flow size top_w_size() returns, over its parameters
+    du_t = DefUse(tws)
+    tparams = [x for x in tws.params if x != tws.self_name]
+    flows = [n for n in tws.own_nodes() if isinstance(n, ast.Return) and isinstance(n.value, ast.Tuple) and len(n.value.elts) == 1]
+    if len(flows) != 1 or not tparams:
+        raise AnalysisError("Overlay.top_w_size: expected exactly one return of a 1-tuple (the flow size)")
+    want = du_t.lin(flows[0].value.elts[0], du_t.node_of(flows[0]))
+    if want is None:
+        raise AnalysisError("Overlay.top_w_size: the flow width is not a linear expression")
+
+    def roles(d, size_name, names):
+        out = {}
+        for k, v in d.items():
+            k2 = "W" if k == f"{size_name}[0]" else names.get(k, k)
+            out[k2] = out.get(k2, 0) + v
+        return out
+
+    want_r = roles(want, tparams[0], {x: f"arg{i}" for i, x in enumerate(tparams)})
+    # 2. which element of calculate_padding_filler()'s result render passes as which parameter
+    du_r = DefUse(ren)
+    calls = [c for c in ren.own_nodes() if isinstance(c, ast.Call) and isinstance(c.func, ast.Attribute) and c.func.attr == tws.name]
+    if not calls:
+        raise AnalysisError("Overlay.render: the top_w_size() call was not found")
+    ex = du_r.expand(calls[0], du_r.node_of(calls[0]))
+    pos = {}
+    for i, a in enumerate(ex.args):
+        if isinstance(a, ast.Subscript) and isinstance(a.value, ast.Call) and isinstance(a.value.func, ast.Attribute) and a.value.func.attr == cpf.name and isinstance(a.slice, ast.Constant):
+            pos[a.slice.value] = f"arg{i}"
+    # 3. the names calculate_padding_filler() returns at those positions
+    rets = [n for n in cpf.own_nodes() if isinstance(n, ast.Return) and isinstance(n.value, ast.Tuple)]
+    if len(rets) != 1 or not all(isinstance(e, ast.Name) for e in rets[0].value.elts):
+        raise AnalysisError("Overlay.calculate_padding_filler: expected one `return a, b, c, d` of plain names")
+    names = {e.id: pos[j] for j, e in enumerate(rets[0].value.elts) if j in pos}
+    du_c = DefUse(cpf)
+    cparams = [x for x in cpf.params if x != cpf.self_name]
+    meas = [c for c in cpf.own_nodes() if isinstance(c, ast.Call) and isinstance(c.func, ast.Attribute) and c.func.attr == "rows" and c.args and isinstance(c.args[0], ast.Tuple) and len(c.args[0].elts) == 1]
+    for c in meas:
+        got = du_c.lin(c.args[0].elts[0], du_c.node_of(c))
+        got_r = roles(got or {}, cparams[0], names)
+        rr.inst(f"rows call {norm(c, 50)}", True, {"measured_at": lin_str(got_r), "rendered_at": lin_str(want_r), "role_mapping": names})
+        if got is None or got_r != want_r:
+            rr.add(finding("SIB", cpf, c, f"the flow top widget is measured with `{norm(c, 60)}` - width {lin_str(got_r)} - but top_w_size() renders it at width {lin_str(want_r)} (W = overlay width, argN = the margins render passes on): a top widget that wraps at its real width is placed for the wrong number of rows (off-centre; `top canvas of overlay not the size expected` when bottom-aligned)", construct=f"top widget measured at another width than rendered: {norm(c, 60)}"))
+    return rr
+
+
 def _memo_children(ctx: Ctx):
     """stale memoised widths hand a packed child neither its own size nor nothing (C06.7 is a necessary condition here)"""
     from . import c06
@@ -279,6 +334,7 @@ def run(ctx: Ctx):
         accum.run_accum(p, "C19.6", "C19", floor=2),
         rule_relative_space_clamp(ctx),
         _memo_children(ctx),
+        rule_overlay_measure(ctx),
     ]
 
 
@@ -288,6 +344,8 @@ _PD = "urwid/widget/padding.py"
 _FL = "urwid/widget/filler.py"
 _G = "urwid/widget/grid_flow.py"
 MUTANTS = [
+    Mut("overlay-flow-rows-at-full-width", "urwid/widget/overlay.py", "Overlay.calculate_padding_filler", "self.top_w.rows((maxcol - left - right,), focus=focus)", "self.top_w.rows((maxcol,), focus=focus)", "SIB|widget.overlay.Overlay.calculate_padding_filler"),
+    Mut("twin-overlay-flow-rows-spelling", "urwid/widget/overlay.py", "Overlay.calculate_padding_filler", "self.top_w.rows((maxcol - left - right,), focus=focus)", "self.top_w.rows((maxcol - (left + right),), focus=focus)", twin=True),
     Mut("relative-height-from-negative-space", "urwid/widget/filler.py", "calculate_top_bottom_filler", "maxheight = max(maxrow - top - bottom, 0)", "maxheight = maxrow - top - bottom", "PASS|widget.filler.calculate_top_bottom_filler"),
     Mut("drop-loop-skips-hidden-columns", "urwid/widget/columns.py", "Columns.column_widths", "            shared += width_ + self.dividechars\n            widths[i] = 0", "            if not width_:\n                continue\n            shared += width_ + self.dividechars\n            widths[i] = 0", "ACCUM|widget.columns.Columns.column_widths"),
     Mut("overlay-valign-from-align-amount", "urwid/widget/overlay.py", "Overlay.calculate_padding_filler", "                self.valign_type,\n                self.valign_amount,\n                self.height_type,", "                self.valign_type,\n                self.align_amount,\n                self.height_type,", "AXIS|widget.overlay.Overlay.calculate_padding_filler"),
